@@ -1,7 +1,11 @@
-(* C07Full.v -- the full statement of property C07 at file level, as a proposition over the two
-   byte-level functions that do not exist in Coq yet: the reference writer of revision histories
-   (gen/histgen.py today) and the loader (Model/Loader.v, property C01/C02).  Nothing is assumed:
-   C07_full is a Definition; what is proved about the models is in Props/C07.v. *)
+(* C07Full.v -- the full statement of property C07 at file level, as a proposition over two byte-level functions: the
+   reference writer of revision histories in EVERY style (gen/histgen.py: hybrid sections, object streams, free entries --
+   no Coq model) and the loader.  Nothing is assumed: C07_full is a Definition.
+   Status.  C07_latest_wins is refuted on the open class freed-comes-back (Props/C07.v A7) and otherwise checked on every
+   prefix of every generated history.  C07_save is PROVED for the loader model Model/Loader.v on the domain where a writer
+   model exists -- files written by lopdf itself, any number of updates, both cross-reference formats --:
+   Props/C07.v C07_inc_save_prefix + C07_prev_view_unchanged + C07_inc_save_reload + C07_history_update_again +
+   C07_history_loads (Proofs/C07Bytes*.v); there the previous bytes are not arbitrary but a lopdf_history. *)
 From LV Require Import Base.Bytes Base.Sx Model.Obj Model.Save Model.Incremental Spec.History
   Proofs.IncrementalProofs.
 
